@@ -246,6 +246,26 @@ func checkParsedTextGoesToRegisteredMember(p *Program, r *Report, rule string) {
 					}
 				}
 				walk(fa.X, 0)
+				// an unexported helper method fills whatever wrapper it is called on: judged at its call sites
+				if isRecv && fn.Object() != nil && !fn.Object().Exported() {
+					isRecv = false
+					for _, g := range p.SrcFuncs() {
+						if g.Pkg != fn.Pkg || g.Signature.Recv() == nil || len(g.Params) == 0 {
+							continue
+						}
+						for _, gb := range g.Blocks {
+							for _, gi := range gb.Instrs {
+								call, ok := gi.(ssa.CallInstruction)
+								if !ok || staticCallee(call.Common()) != fn || len(call.Common().Args) == 0 {
+									continue
+								}
+								if call.Common().Args[0] == ssa.Value(g.Params[0]) && g.Object() != nil && g.Object().Exported() {
+									isRecv = true
+								}
+							}
+						}
+					}
+				}
 				c := fmt.Sprintf("%s#stores-%s", strings.TrimPrefix(fnName(fn), pkgTemplate+"."), f)
 				r.Check(!isRecv, rule, c, p.Pos(in.Pos()), "the wrapper that is filled is a member looked up in (or created for) the set", "the method stores parsed text into its own receiver: a handle that New has detached from the set is filled, the analysis outcome is recorded on the registered member only, and after a failed analysis the handle's next execution dereferences the emptied tree")
 			}
